@@ -276,3 +276,8 @@ package exif2
 //@ dep callback exif2.ifdReader.customTagParser
 //@   names p t -> err
 //@   modifies as(p, "*exif2.ifdReader").po, stream(as(p, "*exif2.ifdReader").reader), as(p, "*exif2.ifdReader").buffer.buf, as(p, "*exif2.ifdReader").Exif
+
+// Log marshaler of the pending-tag buffer (C15: code that only runs at low log levels must be safe, too).
+//@ func (*buffer).MarshalZerologArray
+//@   props C15 C01
+//@   requires b.len <= 84
